@@ -187,6 +187,45 @@ def instr_conformance(run, profiles, n, seed, label, claims, max_events=4000):
     return events
 
 
+def heap_trace(run, profiles, n, collections, seed, label, claims):
+    """Heap snapshots of the real collector validated against VmHeapTrace.  A rejected collection is a violation of the calling
+    check's property only if `claims(why)`: freeing something reachable belongs to C02, leaving garbage (or leaving a guard
+    mark on an object whose guard is gone, so that it can never be reclaimed) belongs to C05."""
+    d = workdir(label)
+
+    def hjob(i, prof):
+        def go():
+            f = os.path.join(d, "heap-%s.ndjson" % prof)
+            drive_trace(["heap-drive", "--profile", prof, "--seed", seed * 100 + 50 + i, "--n", n, "--collections", collections], f, n, timeout=1800)
+            return f
+        return go
+    hfiles = parallel([hjob(i, p) for i, p in enumerate(profiles)], nproc=4)
+    ncoll = sum(1 for f in hfiles for l in open(f) if '"Snapshot"' in l)
+    nfree = sum(1 for f in hfiles for l in open(f) if '"Free"' in l)
+    nq = sum(1 for f in hfiles for l in open(f) if '"Quiesce"' in l)
+    run.notes["collections_with_snapshot"] = ncoll
+    run.notes["objects_freed_in_them"] = nfree
+    run.notes["collections_after_the_run_with_no_guard_alive"] = nq
+    if ncoll < 50:
+        run.thin_corpus("too few collections recorded: %d" % ncoll)
+    before = len(run.viol)
+    validate_traces(run, "VmHeapTrace.tla", {}, ["Safe"], hfiles, label + "-trace", timeout=2400, site_of=lambda m: str(m.get("why")))
+    kept, other = [], 0
+    for v in run.viol[before:]:
+        why = str(v["detail"].get("why"))
+        v["kind"] = "collector-" + ("freed-reachable-object" if "still reach" in why else "left-garbage" if "survived" in why
+                                    else "kept-guard-mark" if "guarded" in why else "protocol")
+        if claims(why):
+            kept.append(v)
+        else:
+            other += 1
+            if other <= 3:
+                print("NOTE (rejected by VmHeapTrace, belongs to another property than %s): %s" % (run.pid, why))
+    run.viol[before:] = kept
+    run.notes["heap_trace_rejections_left_to_another_property"] = other
+    return hfiles
+
+
 def first_records(path, n=6):
     out = []
     with open(path) as f:
